@@ -2,6 +2,7 @@ package main
 
 import (
 	"go/ast"
+	"go/constant"
 	"go/token"
 	"go/types"
 	"sort"
@@ -417,6 +418,118 @@ func (c *Ctx) literalsAt(fd *ast.FuncDecl, target ast.Node) []condLit {
 	return out
 }
 
+// derivedLits extends a list of literals with what they imply through small package helpers: a literal
+// `h(..) == K` (or a boolean call `h(..)`) whose callee returns constants implies the conditions under which
+// the callee returns K, when exactly one of its return sites does; a boolean helper with one return of a
+// non-constant expression implies that expression. The derived literals are in the callee's frame.
+func (c *Ctx) derivedLits(lits []condLit) []condLit {
+	out := append([]condLit{}, lits...)
+	for depth := 0; depth < 2; depth++ {
+		var more []condLit
+		for _, cl := range lits {
+			e := unparen(cl.e)
+			var call *ast.CallExpr
+			var want constant.Value
+			eq := !cl.neg
+			if b, ok := e.(*ast.BinaryExpr); ok && (b.Op == token.EQL || b.Op == token.NEQ) {
+				x, y := unparen(b.X), unparen(b.Y)
+				if tv, ok := c.Info.Types[y]; ok && tv.Value != nil {
+					call, _ = x.(*ast.CallExpr)
+					want = tv.Value
+				} else if tv, ok := c.Info.Types[x]; ok && tv.Value != nil {
+					call, _ = y.(*ast.CallExpr)
+					want = tv.Value
+				}
+				if b.Op == token.NEQ {
+					eq = !eq
+				}
+			} else if ce, ok := e.(*ast.CallExpr); ok {
+				if tv, ok := c.Info.Types[ce]; ok && tv.Type != nil {
+					if bt, ok := tv.Type.Underlying().(*types.Basic); ok && bt.Info()&types.IsBoolean != 0 {
+						call, want = ce, constant.MakeBool(true)
+					}
+				}
+			}
+			if call == nil {
+				continue
+			}
+			g, _ := c.callee(call).(*types.Func)
+			if g == nil || g.Pkg() != c.Types {
+				continue
+			}
+			gfd := c.decl(g)
+			if gfd == nil || gfd.Body == nil || g.Type().(*types.Signature).Results().Len() != 1 {
+				continue
+			}
+			var match, other []*ast.ReturnStmt
+			var nonConst []*ast.ReturnStmt
+			ast.Inspect(gfd.Body, func(n ast.Node) bool {
+				if _, isLit := n.(*ast.FuncLit); isLit {
+					return false
+				}
+				rs, ok := n.(*ast.ReturnStmt)
+				if !ok || len(rs.Results) != 1 {
+					return true
+				}
+				tv, ok := c.Info.Types[rs.Results[0]]
+				switch {
+				case !ok || tv.Value == nil:
+					nonConst = append(nonConst, rs)
+				case tv.Value.Kind() == want.Kind() && constant.Compare(tv.Value, token.EQL, want):
+					match = append(match, rs)
+				default:
+					other = append(other, rs)
+				}
+				return true
+			})
+			switch {
+			case len(nonConst) == 0:
+				sites := match
+				if !eq {
+					sites = other
+				}
+				if len(sites) == 1 {
+					more = append(more, c.literalsAt(gfd, sites[0])...)
+				}
+			case len(nonConst) == 1 && len(match)+len(other) == 0 && want.Kind() == constant.Bool:
+				more = append(more, splitConj(condLit{e: nonConst[0].Results[0], neg: !eq})...)
+				more = append(more, c.literalsAt(gfd, nonConst[0])...)
+			}
+		}
+		if len(more) == 0 {
+			break
+		}
+		out = append(out, more...)
+		lits = more
+	}
+	return out
+}
+
+// apathVia is apath looking through a local alias: a local variable defined once, by an access path, stands
+// for that path (`ctx := r.context; ctx.basePath` is r.context.basePath).
+func (c *Ctx) apathVia(fd *ast.FuncDecl, e ast.Expr) (APath, bool) {
+	p, ok := c.apath(e)
+	if !ok || fd == nil || fd.Body == nil {
+		return p, ok
+	}
+	for i := 0; i < 3; i++ {
+		v, isVar := p.Root.(*types.Var)
+		if !isVar || v.Parent() == c.Types.Scope() || v.Pos() < fd.Body.Pos() || v.Pos() > fd.Body.End() {
+			break
+		}
+		defs := c.localDefs(fd)[p.Root]
+		if len(defs) != 1 || defs[0] == nil {
+			break
+		}
+		q, ok := c.apath(defs[0])
+		if !ok {
+			break
+		}
+		p = APath{Root: q.Root, Steps: append(append([]string{}, q.Steps...), p.Steps...)}
+	}
+	return p, true
+}
+
 // ---- origins of values ----
 
 // origin is where a value comes from: a root variable (usually a parameter)
@@ -501,6 +614,12 @@ func (oc *originCtx) origins(e ast.Expr, depth int) []origin {
 				}
 				return out
 			}
+			// a package helper that lists parts of its argument: range f(x) yields those parts of x
+			if call, ok := unparen(rs.X).(*ast.CallExpr); ok {
+				if out, ok := oc.projected(call, true, depth+1); ok {
+					return out
+				}
+			}
 			var out []origin
 			for _, b := range oc.origins(rs.X, depth+1) {
 				cp := !isRefType(o.Type())
@@ -536,6 +655,10 @@ func (oc *originCtx) origins(e ast.Expr, depth int) []origin {
 		if x.Op == token.AND {
 			return oc.origins(x.X, depth+1)
 		}
+	case *ast.CallExpr:
+		if out, ok := oc.projected(x, false, depth+1); ok {
+			return out
+		}
 	case *ast.SelectorExpr:
 		sel := c.Info.Selections[x]
 		if sel == nil || sel.Kind() != types.FieldVal {
@@ -554,6 +677,70 @@ func (oc *originCtx) origins(e ast.Expr, depth int) []origin {
 		return out
 	}
 	return nil
+}
+
+// projected: the call is of a package function that does nothing but return a part of one of its arguments
+// (a getter), or, with elems, a list literal of such parts; the positions are translated to the caller's frame.
+func (oc *originCtx) projected(call *ast.CallExpr, elems bool, depth int) ([]origin, bool) {
+	c := oc.c
+	if depth > 10 {
+		return nil, false
+	}
+	g, _ := c.callee(call).(*types.Func)
+	if g == nil || g.Pkg() != c.Types {
+		return nil, false
+	}
+	gfd := c.decl(g)
+	if gfd == nil || gfd.Body == nil || gfd == oc.fd || len(gfd.Body.List) != 1 {
+		return nil, false
+	}
+	rs, ok := gfd.Body.List[0].(*ast.ReturnStmt)
+	if !ok || len(rs.Results) != 1 {
+		return nil, false
+	}
+	goc := c.newOriginCtx(gfd)
+	var inner []origin
+	res := unparen(rs.Results[0])
+	if elems {
+		lit, ok := res.(*ast.CompositeLit)
+		if !ok {
+			return nil, false
+		}
+		for _, el := range lit.Elts {
+			if kv, ok := el.(*ast.KeyValueExpr); ok {
+				el = kv.Value
+			}
+			inner = append(inner, goc.origins(el, depth+1)...)
+		}
+	} else {
+		inner = goc.origins(res, depth+1)
+	}
+	if len(inner) == 0 {
+		return nil, false
+	}
+	// bind the callee's parameters (and receiver) to the caller's expressions
+	bind := map[types.Object]ast.Expr{}
+	for i, a := range call.Args {
+		if po := c.paramObj(gfd, i); po != nil {
+			bind[po] = a
+		}
+	}
+	if se, ok := unparen(call.Fun).(*ast.SelectorExpr); ok && gfd.Recv != nil {
+		if ro := c.recvObj(gfd); ro != nil {
+			bind[ro] = se.X
+		}
+	}
+	var out []origin
+	for _, o := range inner {
+		a, ok := bind[o.root]
+		if !ok {
+			return nil, false
+		}
+		for _, b := range oc.origins(a, depth+1) {
+			out = append(out, origin{b.root, append(append([]string{}, b.steps...), o.steps...), b.copy || o.copy})
+		}
+	}
+	return out, len(out) > 0
 }
 
 func (oc *originCtx) soleLiteral(e ast.Expr) (*ast.CompositeLit, bool) {
